@@ -1,4 +1,88 @@
-import MidiModel.Smf
+import Proofs.SmfReach
+/-!
+# C01 — SMF write/read round trip is the identity on file content
+
+Model: `MidiModel/Smf.lean` (`writeTo` = `SMF.WriteTo`, `readFrom` = `smf.ReadFrom` on in-memory bytes,
+`reach` = API histories). Domain `Dom` (DESIGN §8): 1..65535 tracks, format 0/1/2, metric division
+1..32767 or SMPTE with 1..128 frames (covers 24/25/29/30), every message a well-formed channel,
+meta (not end-of-track) or sysex/escape message, deltas over the full uint32 range.
+`s.prepared` is the value after the in-place updates `WriteTo` performs (format promotion, closing of
+open tracks with delta 0): it is "the file content that was written".
+-/
 namespace Midi.C01
-theorem placeholder : True := trivial
+open Midi Midi.Smf
+
+/-- Writing any value of the domain succeeds and reading the bytes back yields exactly the written
+    content: same format, division, number of tracks and per track the same (delta, bytes) sequence
+    including the final end-of-track — with running status on (`rsOn = true`) or off. -/
+theorem roundtrip (rsOn : Bool) (s : File) (h : Dom s) :
+    ∃ w, writeTo rsOn s = .ok w ∧ readFrom w = .ok s.prepared := by
+  obtain ⟨cs, hcs, hlen, hprep, hw⟩ := writeTo_dom rsOn s h
+  refine ⟨_, hw, ?_⟩
+  have hne : cs ≠ [] := by
+    intro h0; subst h0; exact h.nonempty (List.eq_nil_of_length_eq_zero (by simpa using hlen.symm))
+  have hfmt : s.prepared.format ≤ 2 := by
+    have := h.fmt
+    simp only [File.prepared]; split <;> omega
+  have := readFrom_enc rsOn s.prepared.format s.tf cs [] hfmt h.tf hne (by rw [hlen]; exact h.count) hcs
+  simp only [List.append_nil] at this
+  rw [← hlen, this, ← hprep]
+  simp [File.prepared]
+
+/-- The same for every value reachable by a history of `New*`, `Track.Add` (single and multi-message),
+    `Track.Close` (early, late, omitted) and `SMF.Add` calls with well-formed messages. -/
+theorem roundtrip_reach (rsOn : Bool) (fmt : Nat) (tf : TimeFormat) (ops : List HOp)
+    (hfmt : fmt ≤ 2) (htf : ValidTF tf) (ho : ∀ op ∈ ops, OpOK op)
+    (h1 : 1 ≤ countAdds ops) (h2 : countAdds ops < 65536) :
+    ∃ w, writeTo rsOn (reach fmt tf ops) = .ok w ∧ readFrom w = .ok (reach fmt tf ops).prepared :=
+  roundtrip rsOn _ (reach_dom fmt tf ops hfmt htf ho h1 h2)
+
+/-- what "prepared" changes: nothing but the format promotion and the closing of open tracks -/
+theorem prepared_content (s : File) :
+    s.prepared.tf = s.tf ∧ s.prepared.tracks.length = s.tracks.length ∧
+    (∀ t ∈ s.tracks, t.isClosed = true → t.close 0 = t) ∧
+    s.prepared.tracks = s.tracks.map (fun t => t.close 0) := by
+  refine ⟨rfl, by simp [File.prepared], ?_, rfl⟩
+  intro t _ hc; simp [Track.close, hc]
+
+/-- the per-event core, usable from any reader state: one event written under writer status `rs` is
+    decoded under reader status `rr` whenever the two agree (or running status is off) -/
+theorem event_roundtrip (rsOn : Bool) (rs rr δ : Nat) (e : Ev) (rest : Bytes)
+    (hv : e.Valid) (hδ : δ < 4294967296) (hrr : rsOn = true → rr = rs) :
+    readEvent rr (Vlq.encode δ ++ (encBody rsOn rs e).1 ++ rest) = .ok ⟨δ, e.toBytes, statusOr0 e, rest⟩ :=
+  readEvent_enc rsOn rs rr δ e rest hv hδ hrr
+
+/-! Non-vacuity: a concrete two-track history with running status, a long delta, a meta and a sysex
+    message meets the hypotheses; and the executable model really round-trips it. -/
+def sampleOps : List HOp :=
+  [.add 0 0 [[0x90, 60, 64], [0x90, 62, 64]], .add 0 4294967295 [[0xC1, 5]], .smfAdd 0,
+   .add 1 128 [[0xFF, 0x01, 0x02, 0x41, 0x42], [0xF0, 0x7E, 0xF7]], .close 1 16384, .smfAdd 1]
+
+example : ∀ op ∈ sampleOps, OpOK op := by
+  intro op hop
+  simp only [sampleOps, List.mem_cons, List.mem_nil_iff, or_false] at hop
+  rcases hop with rfl | rfl | rfl | rfl | rfl | rfl
+  · refine ⟨by omega, ?_⟩
+    intro m hm; simp at hm
+    rcases hm with rfl | rfl
+    · exact ⟨.chan 0x90 60 (some 64), by simp [Ev.Valid, oneData], trivial, rfl⟩
+    · exact ⟨.chan 0x90 62 (some 64), by simp [Ev.Valid, oneData], trivial, rfl⟩
+  · refine ⟨by omega, ?_⟩
+    intro m hm; simp at hm; subst hm
+    exact ⟨.chan 0xC1 5 none, by simp [Ev.Valid, oneData], trivial, rfl⟩
+  · trivial
+  · refine ⟨by omega, ?_⟩
+    intro m hm; simp at hm
+    rcases hm with rfl | rfl
+    · exact ⟨.metaEv 0x01 [0x41, 0x42], by simp [Ev.Valid], by simp [Ev.notEOT], by simp [Ev.toBytes, Vlq.encode, Vlq.tailLE]⟩
+    · exact ⟨.sysex 0xF0 [0x7E, 0xF7], by simp [Ev.Valid], trivial, rfl⟩
+  · show (16384 : Nat) < 4294967296; omega
+  · trivial
+
+example : countAdds sampleOps = 2 := by decide
+
+example : (match writeTo true (reach 0 (.metric 480) sampleOps) with
+    | .ok w => readFrom w == .ok (reach 0 (.metric 480) sampleOps).prepared
+    | _ => false) = true := by decide +kernel
+
 end Midi.C01
